@@ -467,7 +467,7 @@ func c45Draw(t *rapid.T) c45Case {
 				v = rapid.SampledFrom([]string{"E1NOPE", "", "  ", "IDOC/E1EDP01", "e1edka1"}).Draw(t, label+"Outside")
 			default:
 				v = rapid.SampledFrom(treeNames).Draw(t, label+"Name")
-				if taken[v] && !contains(out, v) && rapid.IntRange(0, 9).Draw(t, label+"Redraw") > 0 {
+				if taken[v] && !c45Contains(out, v) && rapid.IntRange(0, 9).Draw(t, label+"Redraw") > 0 {
 					// mostly prefer a name no other route uses yet (the overlap stays an occasional case)
 					for _, cand := range treeNames {
 						if !taken[cand] {
@@ -478,7 +478,7 @@ func c45Draw(t *rapid.T) c45Case {
 				}
 			}
 			key := strings.TrimSpace(v)
-			if key != "" && taken[key] && !contains(out, key) {
+			if key != "" && taken[key] && !c45Contains(out, key) {
 				if vfkit.Known(c45FindTwoRoutes) {
 					// excluded by construction: the same name configured for two different routes
 					cs.excl[c45FindTwoRoutes] = true
@@ -509,7 +509,7 @@ func c45Draw(t *rapid.T) c45Case {
 	return cs
 }
 
-func contains(list []string, key string) bool {
+func c45Contains(list []string, key string) bool {
 	for _, v := range list {
 		if strings.TrimSpace(v) == key {
 			return true
